@@ -2,9 +2,9 @@
 (hugr-core/src/ops.rs, ops/dataflow.rs, ops/controlflow.rs, ops/module.rs, ops/constant.rs,
 ops/tag.rs, ops/validate.rs, types.rs).  Nothing is imported from hugr-py.
 
-Types are JSON dicts as they appear in documents.  A type written in a document is taken
-literally; a sum that Rust derives goes through Type::new_sum (NS), which turns an all-empty-rows
-sum into Unit{size}.
+Types are JSON dicts as they appear in documents.  Both a sum that Rust derives and a sum type
+read from a document go through Type::new_sum (NS), which turns an all-empty-rows sum into
+Unit{size}; ctype() therefore identifies General{rows: all empty} with Unit{len(rows)}.
 """
 
 from __future__ import annotations
@@ -40,6 +40,10 @@ def ctype(t):
     if k == "Sum":
         if t["s"] == "Unit":
             return ("Sum", "Unit", t["size"])
+        # the Rust reader builds every sum through Type::new_sum (types.rs: From<SumType> for TypeBase),
+        # so a general sum whose rows are all empty *is* the unit sum of that size
+        if len(t["rows"]) <= 255 and all(len(r) == 0 for r in t["rows"]):
+            return ("Sum", "Unit", len(t["rows"]))
         return ("Sum", "General", tuple(crow(r) for r in t["rows"]))
     if k == "Opaque":
         return ("Opaque", t["extension"], t["id"], tuple(carg(a) for a in t.get("args", [])), t["bound"])
